@@ -473,10 +473,148 @@ def workloads(spec_path):
     os.close(fd)
 
 
+# ------------------------------------------------------------------ deaths by unwinding (one process per run)
+# The process that runs ONE workload dies at a chosen position, not at a system call but the way processes
+# usually die: an exception that is not an Exception travels up the stack (KeyboardInterrupt from SIGINT,
+# SystemExit from a SIGTERM handler or sys.exit in a callback), an ordinary exception nobody catches, or a signal
+# with its default action.  All except the last run the handlers / __exit__ / finally code on the way.
+UNWINDING = ("KeyboardInterrupt", "SystemExit", "OSError", "SIGINT", "SIGTERM-exit", "SIGINT-group")
+NOT_UNWINDING = ("SIGTERM-default",)
+MODES = UNWINDING + NOT_UNWINDING
+
+
+class Trigger:
+    def __init__(self, mode, status_fd):
+        import signal
+        self.mode, self.fd, self.pid, self.fired = mode, status_fd, os.getpid(), False
+        # handlers are installed first thing, as a job script does (children started later inherit them)
+        if mode in ("SIGINT", "SIGINT-group"):
+            signal.signal(signal.SIGINT, signal.default_int_handler)       # as in a foreground job
+        elif mode == "SIGTERM-exit":
+            signal.signal(signal.SIGTERM, lambda signum, frame: sys.exit(143))
+        elif mode == "SIGTERM-default":
+            signal.signal(signal.SIGTERM, signal.SIG_DFL)
+
+    def fire(self):
+        import signal
+        if self.fired or os.getpid() != self.pid:
+            return
+        self.fired = True
+        os.write(self.fd, b"fired\n")
+        m = self.mode
+        if m == "KeyboardInterrupt":
+            raise KeyboardInterrupt
+        if m == "SystemExit":
+            raise SystemExit(3)
+        if m == "OSError":
+            raise OSError(5, "input source failed")
+        if m == "SIGINT":
+            os.kill(self.pid, signal.SIGINT)
+        elif m == "SIGINT-group":
+            os.killpg(os.getpgrp(), signal.SIGINT)          # ctrl-c: every process of the job
+        elif m in ("SIGTERM-exit", "SIGTERM-default"):
+            os.kill(self.pid, signal.SIGTERM)
+        else:
+            raise ValueError(m)
+
+
+class FrameProxy:
+    """the data frame handed to from_dataframe; the k-th request for a chunk (1-based) is where the process dies"""
+
+    def __init__(self, frame, at, trigger):
+        self.frame, self.at, self.trigger, self.n = frame, at, trigger, 0
+
+    def __len__(self):
+        return len(self.frame)
+
+    def __getitem__(self, item):
+        if isinstance(item, slice):
+            self.n += 1
+            if self.n == self.at:
+                self.trigger.fire()
+        return self.frame[item]
+
+
+class CallHook:
+    """the k-th call (1-based) of a python function defined in the yaw package, in the main thread of the process
+    that runs the workload, is where the process dies (k = 0: count only)"""
+
+    def __init__(self, at, trigger):
+        self.at, self.trigger, self.n, self.pid = at, trigger, 0, os.getpid()
+        self.prefix = os.path.realpath(REPO_SRC) + "/yaw/"
+
+    def __call__(self, frame, event, arg):
+        if event == "call" and os.getpid() == self.pid and frame.f_code.co_filename.startswith(self.prefix):
+            self.n += 1
+            if self.n == self.at:
+                self.trigger.fire()
+
+    def __enter__(self):
+        sys.setprofile(self)
+        return self
+
+    def __exit__(self, *a):
+        sys.setprofile(None)
+
+
+def interrupted(spec_path):
+    """spec: the workload item of driver_spec + {"workers", "mode", "hook": "reader"|"call", "at", "status"}.
+    Lines appended to spec["status"]: 'armed', 'fired', 'calls N', 'completed' (the harness reads them)."""
+    w = json.load(open(spec_path))
+    workers = int(w["workers"])
+    os.environ["YAW_NUM_THREADS"] = str(workers)
+    fd = os.open(w["status"], os.O_WRONLY | os.O_CREAT | os.O_APPEND, 0o644)
+    trig = Trigger(w["mode"], fd)
+    yaw = Y()
+    import pandas as pd
+    from yaw.utils import parallel
+    os.write(fd, ("workers %d\n" % parallel.get_size(workers)).encode())
+    kind = w["kind"]
+    hook = CallHook(int(w["at"]) if w["hook"] == "call" else -1, trig)
+    if kind in ("create", "overwrite"):
+        from yaw.coordinates import AngularCoordinates
+        name, scale = w["dataset"], w["scale"]
+        d = dataset(name, scale)
+        df = pd.DataFrame(dict(ra=d["ra"], dec=d["dec"], w=d["w"], z=d["z"]))
+        if no_redshifts(name):
+            df = df.drop(columns=["z"])
+        cc = AngularCoordinates(np.deg2rad(np.asarray(centres(scale["npatch"]), dtype="f8")))
+        src = FrameProxy(df, int(w["at"]), trig) if w["hook"] == "reader" else df
+
+        def job():
+            yaw.Catalog.from_dataframe(w["dir"], src, ra_name="ra", dec_name="dec", weight_name="w",
+                                       redshift_name=None if no_redshifts(name) else "z", patch_centers=cc,
+                                       overwrite=(kind == "overwrite"), max_workers=workers, chunksize=chunksize(name, scale))
+    elif kind == "metadata":
+        def job():
+            yaw.Catalog(w["dir"], max_workers=workers)
+    elif kind == "build":
+        cat = yaw.Catalog(w["dir"], max_workers=1)
+        edges, closed = BINNINGS[w["binning"]]
+
+        def job():
+            cat.build_trees(edges, closed=closed, force=w.get("force", False), max_workers=workers)
+    elif kind in ("corrfunc", "corrdata", "product"):
+        prepare_workload(w)
+
+        def job():
+            run_workload(w)
+    else:
+        raise ValueError(kind)
+    with in_dir(w.get("cwd")):
+        os.write(fd, b"armed\n")
+        with hook:
+            job()
+        os.write(fd, ("calls %d\ncompleted\n" % hook.n).encode())
+    os.close(fd)
+
+
 if __name__ == "__main__":
     if sys.argv[1] == "worker":
         worker()
     elif sys.argv[1] == "workloads":
         workloads(sys.argv[2])
+    elif sys.argv[1] == "interrupted":
+        interrupted(sys.argv[2])
     else:
-        sys.exit("usage: c08_driver.py worker | workloads spec.json")
+        sys.exit("usage: c08_driver.py worker | workloads spec.json | interrupted spec.json")
